@@ -2,7 +2,7 @@
 From Coq Require Import ZArith List Bool String.
 From Coq Require Extraction.
 From Coq Require Import ExtrOcamlBasic ExtrOcamlString.
-From HV Require Import Gen.GenConfig Gen.GenConfigTime Gen.GenConfigMain Spec.ConfigSpec Model.ConfigFloatModel Model.ConfigModel.
+From HV Require Import Gen.GenConfig Gen.GenConfigTime Gen.GenConfigMain Gen.GenConfigNatspec Spec.ConfigSpec Model.ConfigFloatModel Model.ConfigModel.
 Import ListNotations.
 Open Scope Z_scope.
 
@@ -96,6 +96,9 @@ Definition c18_main (a : list Z) : list Z :=
   | [] => []
   end.
 
+(* ---- build.parse_natspec: text -> annotation ---- *)
+Definition c18_natspec (a : list Z) : list Z := parse_natspec a.
+
 (* ---- codecs ---- *)
 Definition enc_opt_list (r : option (list Z)) : list Z :=
   match r with Some l => 1 :: l | None => [0] end.
@@ -171,6 +174,7 @@ Definition c18_int10 (a : list Z) : list Z := match py_int10 a with Some v => [1
 Definition table : list (string * (list Z -> list Z)) :=
   [ ("c18_stack"%string, c18_stack);
     ("c18_main"%string, c18_main);
+    ("c18_natspec"%string, c18_natspec);
     ("c18_csvint_parse"%string, c18_csvint_parse);
     ("c18_csvint_unparse"%string, c18_csvint_unparse);
     ("c18_errcodes_parse"%string, c18_errcodes_parse);
